@@ -90,6 +90,18 @@ CLAIMED = {
         "technique": "Coq proof (nested induction over operation trees) on a hand state-machine model; random-history differential",
         "design": "DESIGN.md section 5, C13",
     },
+    "C10": {
+        "text": "Coq theorems (props/C10.v) over the loops and corrections regenerated from multiplicity.py (stable sort = "
+                "Python sorted): flag = (p <= alpha_adj) for every procedure/correction in input order; adjusted p-values are "
+                "the running min/max of the corrected values in rank order (closed forms) and preserve the raw order; rejection "
+                "sets are the step-up / step-down sets; rejected <-> pvalue_adj <= alpha for BH, BY, Hochberg-Bonferroni and "
+                "Holm-Bonferroni; BH/BY range. Sidak equivalence, permutation invariance and purity are validated by the "
+                "oracle (textbook references, shuffles, deep copies), not proved",
+        "note": "trusted: Coq kernel, stdlib real axioms, translator incl. loop pattern + lib/Loop.v, exact-number wrapper in the "
+                "harness; Python sorted() stable",
+        "technique": "Coq proof (list induction over the sorted family) on a translator-generated model; exact differential; textbook oracle",
+        "design": "DESIGN.md section 5, C10",
+    },
 }
 REASONS = {}
 
